@@ -513,6 +513,33 @@ def adt_fields(adts_json):
     return out
 
 
+def apply_field_order(j, ref):
+    """Aggregate literals list their fields in declaration order; a reordered declaration (same field
+    names) is read in the reference order, so that reordering fields alone never changes a term."""
+    n = 0
+
+    def walk(o):
+        nonlocal n
+        if isinstance(o, dict):
+            if o.get("r") == "agg" and o.get("ak") == "adt" and o.get("adt") in ref and isinstance(o.get("fields"), list) and isinstance(o.get("ops"), list) and len(o["fields"]) == len(o["ops"]):
+                rf = ref[o["adt"]].get(o.get("variant"))
+                if rf:
+                    order = [r[0] for r in rf]
+                    if sorted(order) == sorted(o["fields"]) and order != o["fields"]:
+                        idx = [o["fields"].index(nm) for nm in order]
+                        o["fields"] = [o["fields"][i] for i in idx]
+                        o["ops"] = [o["ops"][i] for i in idx]
+                        n += 1
+            for v in o.values():
+                walk(v)
+        elif isinstance(o, list):
+            for v in o:
+                walk(v)
+    for b in j["bodies"]:
+        walk(b["blocks"])
+    return n
+
+
 def apply_field_reference(j, ref):
     """A field that was merely renamed (same ADT and variant, same position, same type, and the new name
     is not the old name of another field) is read under its reference name."""
@@ -576,11 +603,13 @@ class Facts:
         self.closure_aliases = []
         self.function_aliases = []
         self.field_aliases = []
+        self.field_reorders = 0
         _ref_path = os.path.join(os.path.dirname(os.path.dirname(os.path.dirname(os.path.abspath(__file__)))), "reference_names.json")
         if os.path.exists(_ref_path):
             with open(_ref_path) as fh:
                 _ref = json.load(fh)
             self.field_aliases = apply_field_reference(self.j, _ref.get("fields", {}))
+            self.field_reorders = apply_field_order(self.j, _ref.get("fields", {}))
             self.function_aliases = apply_function_reference(self.j["bodies"], _ref.get("functions", {}))
             self.closure_aliases = apply_closure_reference(self.j["bodies"], _ref.get("closures", {}))
         self.path = path
